@@ -30,7 +30,8 @@ func ruleC16(c *Check, p *Prog) {
 	c.Explanation = "Decides the consistency relations between P, Q and Pass that are visible in the code's shape: R-QP-CHI for the chi-square tests (block frequency, poker bit/byte, overlapping x2, runs distribution, longest run, rank, cumulative sums, approximate entropy, linear complexity) the Q result is the same value as the P result on every return; " +
 		"R-PQ-NORMAL for the two-sided tests (monobit bit/byte, runs, binary derivative, autocorrelation, Maurer, DFT) P = erfc(|v|) and Q = erfc(v)/2 over the SAME v, whence P = 2 min(Q, 1-Q) identically; " +
 		"R-PASS in each of the 15 registry runners Pass is (P >= Alpha) on the value stored in P (min(P,P2) for the overlapping test), Alpha = 0.01. " +
-		"NOT decided: finiteness, absence of NaN and the range [0,1] (runtime values: 0/0 in the runs test for constant input, logs of counts, differences of near-equal sums)."
+		"R-FINITE-GUARDS the finiteness guards of igamc (clamp, underflow cut, qk != 0, rescaling of the continued-fraction state) are present. " +
+		"NOT decided: finiteness, absence of NaN and the range [0,1] in general (runtime values: 0/0 in the runs test for constant input, logs of counts, differences of near-equal sums)."
 	c.Floor("R-QP-CHI", 10)
 	c.Floor("R-PQ-NORMAL", 7)
 	c.Floor("R-PASS", 15)
@@ -108,6 +109,7 @@ func ruleC16(c *Check, p *Prog) {
 	for _, rs := range runnerSpecs {
 		checkRunner(c, p, rs, "", "R-PASS")
 	}
+	checkIgamcGuards(c, p)
 }
 
 // ---- C17 ----
@@ -603,4 +605,101 @@ func accDelta(S *Store, next, acc *Term, ty TyClass) *Term {
 		}
 	}
 	return nil
+}
+
+// checkIgamcGuards: the finiteness guards of the incomplete-gamma routine that every chi-square P-value passes through:
+// clamp to 1 for x<=0 or a<=0, underflow cut to 0, division pk/qk only when qk != 0, and rescaling of the four
+// continued-fraction state variables when |pk| exceeds 2^52 (without it pk, qk overflow and Inf/Inf = NaN for large shapes).
+func checkIgamcGuards(c *Check, p *Prog) {
+	fn := p.Func(pkgRoot, "igamc")
+	if fn == nil {
+		c.Fail("R-FINITE-GUARDS", "igamc", "-", "igamc not found")
+		return
+	}
+	x := NewExt(p, NewStore(), numConfig(fn))
+	sum := x.Summarize(fn, nil, nil)
+	S := x.S
+	where := p.Pos(fn.Pos())
+	if len(sum.Undecided) > 0 || len(sum.Params) != 2 {
+		c.Undecided("R-FINITE-GUARDS", "igamc", where, "%s", strings.Join(sum.Undecided, "; "))
+		return
+	}
+	a, xx := sum.Params[0], sum.Params[1]
+	var probs []string
+	// clamps
+	clamp := S.Canon(S.Or(S.Cmp("<=", xx, S.Float(0)), S.Cmp("<=", a, S.Float(0))))
+	okClamp, okUnder := false, false
+	for _, r := range liveRets(sum) {
+		if len(r.Rets) != 1 {
+			continue
+		}
+		if v, ok := r.Rets[0].FloatVal(); ok && r.Rets[0].K == KConst {
+			if v == 1 && S.Equivalent(r.Guard, clamp) {
+				okClamp = true
+			}
+			if v == 0 {
+				// guard must contain a comparison of the log-prefactor against -MAXLOG
+				Walk(r.Guard, map[*Term]bool{}, func(t *Term) {
+					if t.Op == "flt" || t.Op == "fle" {
+						for _, u := range t.Args {
+							if f, ok := u.FloatVal(); ok && u.K == KConst && f < -700 {
+								okUnder = true
+							}
+						}
+					}
+				})
+			}
+		}
+	}
+	if !okClamp {
+		probs = append(probs, "no `return 1` exactly when x <= 0 or a <= 0")
+	}
+	if !okUnder {
+		probs = append(probs, "no underflow cut returning 0 when the log-prefactor is below -MAXLOG")
+	}
+	// continued-fraction loop
+	var loop *LoopS
+	sum.Top.AllLoops(func(l *LoopS) { loop = l })
+	big, _ := constFloat(p, pkgRoot, "big")
+	biginv, _ := constFloat(p, pkgRoot, "biginv")
+	if loop == nil {
+		probs = append(probs, "no continued-fraction loop")
+	} else {
+		rescaled := 0
+		for _, cv := range nonAffine(loop) {
+			n := cv.Next
+			if n.Op != "ite" {
+				continue
+			}
+			cond := n.Args[0]
+			isBig := false
+			if cond.Op == "flt" && cond.Args[0] == S.Float(big) && cond.Args[1].Op == "call:math.Abs" {
+				isBig = true
+			}
+			if !isBig {
+				continue
+			}
+			t, e := n.Args[1], n.Args[2]
+			if t.Op == "fmul" && ((t.Args[0] == e && t.Args[1] == S.Float(biginv)) || (t.Args[1] == e && t.Args[0] == S.Float(biginv))) {
+				rescaled++
+			}
+		}
+		if rescaled != 4 || big != 4503599627370496 || biginv != 1/big {
+			probs = append(probs, fmt.Sprintf("%d of the 4 continued-fraction state variables are rescaled by 2^-52 when |pk| > 2^52", rescaled))
+		}
+		// division guarded by qk != 0: the accumulator holding pk/qk keeps its old value when qk == 0
+		guarded := false
+		for _, cv := range nonAffine(loop) {
+			n := cv.Next
+			if n.Op == "ite" && n.Args[0].Op == "feq" && (n.Args[1] == S.SymTerm(cv.Sym) || n.Args[2] == S.SymTerm(cv.Sym)) {
+				guarded = true
+			}
+		}
+		if !guarded {
+			probs = append(probs, "pk/qk is not guarded by qk != 0")
+		}
+	}
+	c.Expect(len(probs) == 0, "R-FINITE-GUARDS", "igamc", where,
+		"igamc clamps to 1 for x<=0 or a<=0, cuts underflow to 0, divides by qk only when it is non-zero and rescales all four continued-fraction state variables when |pk| > 2^52 (no Inf/Inf at large shapes)",
+		strings.Join(probs, "; "))
 }
